@@ -353,6 +353,221 @@ def verify_proportional(run):
     run.add(static(f"{fq}/modifies", ex.writes <= {"Rule.activation_degree", "Rule.triggered", "Aggregated.terms"}, f"heap fields written: {sorted(ex.writes)}", fn=fq))
 
 
+# ------------------------------------------------------------------------------------------------ Highest / Lowest (heapq)
+def verify_heap_method(run, cls):
+    """loop 1 computes every loaded rule's degree on the outputs at block entry and pushes (key, index) for the positive ones (key = -degree for
+    Highest, +degree for Lowest); loop 2 pops the lexicographically smallest (key, index) at most `rules` times and triggers that rule.
+    The heap is modelled as a SET of indices with a key array (assumption A-HEAPQ: heappush adds, heappop removes and returns a minimum of the
+    lexicographic order on (key, index)).  Ghosts: POP(m) = the index popped at step m, DONE(m) = the set popped before step m, Tg2(m) outputs."""
+    from pyvc.parsers import ParserExec
+    from pyvc.hlib import split_invariants
+    src = run.src
+    fq = f"activation.{cls}.activate"
+    fn = src.func("activation", f"{cls}.activate")
+    run.under_contract("activation", f"{cls}.activate", fn)
+    sc = W.schema(src)
+    H0 = init_heap(sc)
+    self_ = z3.Const("self", Ref); block = z3.Const("rule_block", Ref)
+    vstar, ostar = z3.Const("v*", Ref), z3.Const("o*", Ref)
+    kstar, mstar, jstar = z3.Int("k*"), z3.Int("m*"), z3.Int("j*")
+    OUT = sc.ids["OutputVariable"]
+    rules = H0["RuleBlock.rules"][block]
+    L = z3.Length(rules)
+    conj, disj, impl = H0["RuleBlock.conjunction"][block], H0["RuleBlock.disjunction"][block], H0["RuleBlock.implication"][block]
+    NR = H0[f"{cls}.rules"][self_]
+    T0 = H0["Aggregated.terms"]
+    fz = H0["OutputVariable.fuzzy"][vstar]
+    deg = z3.Function("deg", z3.IntSort(), XR)
+    CNT = z3.Function("number_selected", z3.IntSort(), z3.IntSort())
+    POP = z3.Function("popped_index", z3.IntSort(), z3.IntSort())
+    BoolArr = z3.ArraySort(z3.IntSort(), z3.BoolSort())
+    DONE = z3.Function("popped_before", z3.IntSort(), BoolArr)
+    Tg2 = z3.Function("Tg2", z3.IntSort(), W.TArr)
+    KeyArr = z3.ArraySort(z3.IntSort(), XR)
+    rule = lambda j: rules[j]
+    ld = lambda j: W.loaded(H0, rule(j))
+    pos_deg = lambda j: xr.gt(xr2x(deg(j)), xr.const(0.0))
+    selP = lambda j: z3.And(ld(j), pos_deg(j))
+    ZERO = x2xr(xr.const(0.0))
+    sign = -1 if cls == "Highest" else 1
+    key = lambda j: (xr.neg(xr2x(deg(j))) if sign < 0 else xr2x(deg(j)))
+
+    def lex_lt(i, j):          # (key(i), i) < (key(j), j)
+        return z3.Or(xr.lt(key(i), key(j)), z3.And(xr.eq(key(i), key(j)), i < j))
+
+    def distinct(a, b):
+        return z3.Implies(z3.And(0 <= a, a < L, 0 <= b, b < L, a != b), rule(a) != rule(b))
+
+    class HeapV:
+        """heapq list as a set of indices: member[j], the key pushed with j, and the number of elements"""
+
+        def __init__(s, member, keys, size):
+            s.member, s.keys, s.size = member, keys, size
+
+    class HeapExec2(ParserExec):
+        def stmt(s, p, n):
+            if isinstance(n, ast.AnnAssign) and isinstance(n.target, ast.Name) and "tuple" in ast.unparse(n.annotation) and isinstance(n.value, ast.List) and not n.value.elts:
+                p.env[n.target.id] = HeapV(z3.K(z3.IntSort(), z3.BoolVal(False)), z3.Const("keys0", KeyArr), z3.IntVal(0))
+                return [(p, None)]
+            if isinstance(n, ast.Expr) and isinstance(n.value, ast.Call) and ast.unparse(n.value.func) == "heapq.heappush":
+                hp = p.env[n.value.args[0].id]
+                item = s.ev(p, n.value.args[1])
+                kx, jx = x2xr(s.num(item[0], n).x), z3.simplify(z3.ToInt(s.num(item[1], n).x.v))
+                s.oblige(f"heap/line{n.lineno - s.fn_line}:an index is pushed at most once", p, z3.Not(hp.member[jx]))
+                p.env[n.value.args[0].id] = HeapV(z3.Store(hp.member, jx, True), z3.Store(hp.keys, jx, kx), hp.size + 1)
+                return [(p, None)]
+            return super().stmt(p, n)
+
+        def ev_Tuple(s, p, e):
+            return tuple(s.ev(p, x) for x in e.elts)
+
+        def ev_Call(s, p, e):
+            if ast.unparse(e.func) == "heapq.heappop":
+                nm = e.args[0].id
+                hp = p.env[nm]
+                s.oblige(f"heap/line{e.lineno - s.fn_line}:pop from a non-empty heap", p, hp.size > 0)
+                jm = z3.FreshInt("popped")
+                j = z3.Int("j")
+                km, kj = xr2x(hp.keys[jm]), lambda t: xr2x(hp.keys[t])
+                le = lambda t: z3.Or(xr.lt(km, kj(t)), z3.And(xr.eq(km, kj(t)), jm <= t))
+                # A-HEAPQ: the popped element is a member and a minimum of the lexicographic order on (key, index)
+                p.pc += [hp.member[jm], z3.ForAll([j], z3.Implies(hp.member[j], le(j)))] + [z3.Implies(hp.member[t], le(t)) for t in (kstar, jstar)]
+                p.env[nm] = HeapV(z3.Store(hp.member, jm, False), hp.keys, hp.size - 1)
+                from pyvc.numexec import Num as _N
+                return (_N(xr2x(hp.keys[jm]), False, True), _N(xr.X(xr.F, xr.I0, z3.ToReal(jm)), False, True, True))
+            return super().ev_Call(p, e)
+
+        def truth(s, v, node, p=None):
+            if isinstance(v, HeapV):
+                return v.size > 0
+            return super().truth(v, node, p)
+
+        def havoc_value(s, v, hint):
+            if isinstance(v, HeapV):
+                return HeapV(z3.FreshConst(BoolArr, hint + ".member"), z3.FreshConst(KeyArr, hint + ".keys"), z3.FreshInt(hint + ".size"))
+            return super().havoc_value(v, hint)
+
+        def assigned_names(s, body):
+            out = super().assigned_names(body)
+            for st in body:
+                for x in ast.walk(st):
+                    if isinstance(x, ast.Call) and ast.unparse(x.func) in ("heapq.heappush", "heapq.heappop") and x.args and isinstance(x.args[0], ast.Name):
+                        out.add(x.args[0].id)
+            return out
+
+        def while_loop(s, p, n):
+            # between the loops: start of the output history and of the popped set
+            hp = p.env.get("activate")
+            p.pc += [Tg2(0) == p.heap["Aggregated.terms"], DONE(0) == z3.K(z3.IntSort(), z3.BoolVal(False))]
+            return super().while_loop(p, n)
+
+    def hist1(H, j):
+        r = rule(j)
+        return z3.And(z3.Not(H["Rule.triggered"][r]),
+                      z3.If(ld(j), z3.And(H["Rule.activation_degree"][r] == deg(j), deg(j) == W.fire(H0, r, conj, disj, T0)), H["Rule.activation_degree"][r] == ZERO))
+
+    def inv1(ex, p, k, seq):
+        hp = p.env.get("activate")
+        if not isinstance(hp, HeapV):
+            return z3.BoolVal(False)
+        return z3.And(hp.size == CNT(k), CNT(k) >= 0, p.heap["Aggregated.terms"] == T0,
+                      hp.member[jstar] == z3.And(0 <= jstar, jstar < k, selP(jstar)),
+                      z3.Implies(z3.And(0 <= jstar, jstar < k, selP(jstar)), xr2x(hp.keys[jstar]).nan == key(jstar).nan),
+                      z3.Implies(z3.And(0 <= jstar, jstar < k, selP(jstar)), x2xr(key(jstar)) == hp.keys[jstar]),
+                      z3.Implies(z3.And(0 <= kstar, kstar < k), hist1(p.heap, kstar)),
+                      z3.Implies(z3.And(BATCH > 1, kstar >= 0, kstar < k), z3.Not(ld(kstar))))
+
+    def facts1(ex, p, k, seq):
+        r = rule(k)
+        return [r != NONE, H0["Rule.antecedent"][r] != NONE, H0["Rule.consequent"][r] != NONE, distinct(k, kstar), canon(deg(k)), canon(deg(kstar)), canon(deg(jstar)),
+                CNT(0) == 0, CNT(k + 1) == CNT(k) + z3.If(selP(k), 1, 0)]
+
+    def ghost1(ex, q, k, seq):
+        return [z3.Implies(ld(k), deg(k) == q.heap["Rule.activation_degree"][rule(k)])]
+
+    def inst1(ex, p, k, seq):
+        # instance of the membership clause at the current index (the body tests whether k is already in the heap)
+        hp = p.env.get("activate")
+        return [hp.member[k] == z3.And(0 <= k, k < k, selP(k))] if isinstance(hp, HeapV) else []
+
+    def step2(H, m):
+        j = POP(m)
+        r = rule(j)
+        en = H0["Rule.enabled"][r]
+        cons = H0["Rule.consequent"][r]
+        n = z3.Length(H0["Consequent.conclusions"][cons])
+        return z3.And(0 <= j, j < L, selP(j), H["Rule.activation_degree"][r] == deg(j),
+                      H["Rule.triggered"][r] == z3.And(en, pos_deg(j)),
+                      Tg2(m + 1)[fz] == z3.If(en, z3.Concat(Tg2(m)[fz], W.contrib(cons, deg(j), impl, vstar, n)), Tg2(m)[fz]),
+                      Tg2(m + 1)[ostar] == Tg2(m)[ostar],
+                      z3.Implies(m >= 1, lex_lt(POP(m - 1), j)))
+
+    def inv2(ex, p, m, seq):
+        hp = p.env.get("activate")
+        if not isinstance(hp, HeapV):
+            return z3.BoolVal(False)
+        H = p.heap
+        r = rule(kstar)
+        return z3.And(p.heap["Aggregated.terms"] == Tg2(m), z3.ToReal(m) == ex.num(p.env["activated"]).x.v, z3.Implies(NR >= 0, m <= NR), z3.Implies(NR < 0, m == 0),
+                      hp.size == CNT(L) - m, hp.size >= 0,
+                      hp.member[jstar] == z3.And(0 <= jstar, jstar < L, selP(jstar), z3.Not(DONE(m)[jstar])),
+                      z3.Implies(z3.And(0 <= jstar, jstar < L, selP(jstar)), x2xr(key(jstar)) == hp.keys[jstar]),
+                      z3.Implies(z3.And(0 <= mstar, mstar < m), z3.And(step2(H, mstar), DONE(m)[POP(mstar)])),
+                      # what is still in the heap comes after everything popped
+                      z3.Implies(z3.And(m >= 1, hp.member[jstar]), lex_lt(POP(m - 1), jstar)),
+                      # a rule that has not been popped keeps what the first loop left
+                      z3.Implies(z3.And(0 <= kstar, kstar < L, z3.Not(DONE(m)[kstar])), hist1(H, kstar)),
+                      z3.Implies(DONE(m)[jstar], z3.And(0 <= jstar, jstar < L, selP(jstar))))
+
+    def facts2(ex, p, m, seq):
+        return [canon(deg(kstar)), canon(deg(jstar)), distinct(kstar, jstar)]
+
+    def ghost2(ex, q, m, seq):
+        idx_ = q.env.get("index")
+        j = z3.simplify(z3.ToInt(ex.num(idx_).x.v))
+        return [Tg2(m + 1) == q.heap["Aggregated.terms"], POP(m) == j, DONE(m + 1) == z3.Store(DONE(m), j, True), canon(deg(j)), distinct(j, kstar), distinct(j, jstar),
+                distinct(j, POP(mstar)), rule(j) != NONE, H0["Rule.consequent"][rule(j)] != NONE, H0["Rule.antecedent"][rule(j)] != NONE]
+
+    def inst2(ex, p, m, seq):
+        # the invariant is proved for an arbitrary index / step, so where it is ASSUMED it may be used at every index (quantified) and at the last step
+        base = inv2(ex, p, m, seq)
+        jq = z3.Int("jq")
+        return [z3.substitute(base, (mstar, m - 1)), z3.ForAll([jq], z3.substitute(base, (jstar, jq))), z3.ForAll([jq], z3.substitute(base, (kstar, jq)))]
+
+    contracts = {"Rule.activate_with": W.ActivateWithContract(), "Rule.trigger": W.TriggerContract()}
+    ex = HeapExec2(src, "activation", sc, contracts=contracts, interfaces=W.INTERFACES,
+                   inline={"Rule.deactivate", "Rule.is_loaded", "Antecedent.is_loaded", "Consequent.is_loaded", "Activation.assert_is_not_vector"},
+                   loops={0: LoopSpec(inv1, facts=facts1, ghost=ghost1, inst=inst1, name="loop0.degrees", modifies={"Rule.activation_degree", "Rule.triggered"}),
+                          1: LoopSpec(inv2, facts=facts2, ghost=ghost2, inst=inst2, name="loop1.pop_and_trigger", modifies={"Rule.triggered", "Aggregated.terms"})}, fnname=fq)
+    ex.witness = {"vars": [vstar], "objs": [ostar]}
+    ex.skolems = [kstar, mstar, jstar]
+    jw = z3.Int("jw")
+    wf_rules = z3.ForAll([jw], z3.Implies(z3.And(0 <= jw, jw < L), z3.And(rules[jw] != NONE, H0["Rule.antecedent"][rules[jw]] != NONE, H0["Rule.consequent"][rules[jw]] != NONE, canon(deg(jw)))))     # A-WF
+    pre = [self_ != NONE, block != NONE, cls_of(vstar) == OUT, BATCH >= 1, kstar >= 0, kstar < L, wf_rules] + W.wf_output_variable(sc, H0, vstar) + [W.not_a_fuzzy_output(H0, ostar)]
+    outs = ex.run_fn(fn, HPath({"self": RefV(self_, cls), "rule_block": RefV(block, "RuleBlock")}, pre, H0))
+    rp = {"module": W_N, "func": "replay_activation", "kwargs": {"method": cls}, "vars": {}}
+    split_invariants(ex)
+    emit(run, ex, fq, [], rp)
+    scalar = [BATCH == 1]
+    for i, (kind, val, q) in enumerate(outs):
+        tag = f"[path{i}]"
+        if kind == "raise":
+            run.add(Obl(f"{fq}/raises.only_for_batches{tag}", q.pc, z3.And(z3.BoolVal(val == "ValueError"), BATCH > 1), fn=fq, meta={"replay": rp})); continue
+        H = q.heap
+        hp = q.env.get("activate")
+        M = z3.simplify(z3.ToInt(ex.num(q.env["activated"]).x.v))
+        hy = q.pc + scalar + [canon(deg(kstar)), canon(deg(jstar))]
+        # the number of triggers, which rules they are, their order, and that everything not popped comes later in the order
+        run.add(Obl(f"{fq}/ensures.pops_the_first_min_n_selected_keys_in_order{tag}", hy,
+                    z3.And(H["Aggregated.terms"] == Tg2(M), M >= 0, z3.Or(M == CNT(L), z3.And(M >= NR, M <= CNT(L))), z3.Implies(NR >= 0, M <= z3.If(NR < CNT(L), NR, CNT(L))),
+                           z3.Implies(z3.And(0 <= mstar, mstar < M), step2(H, mstar)),
+                           z3.Implies(z3.And(M >= 1, 0 <= jstar, jstar < L, selP(jstar), z3.Not(DONE(M)[jstar])), lex_lt(POP(M - 1), jstar))), fn=fq, meta={"replay": rp}))
+        run.add(Obl(f"{fq}/ensures.other_rules_keep_their_degree_untriggered{tag}", hy, z3.Implies(z3.Not(DONE(M)[kstar]), hist1(H, kstar)), fn=fq, meta={"replay": rp}))
+        run.add(Obl(f"{fq}/frame{tag}", q.pc, frame_goal(q, H0, {"Rule.activation_degree", "Rule.triggered", "Aggregated.terms"}), fn=fq, meta={"replay": rp}))
+        run.add(Obl(f"{fq}/ensures.rejects_batches{tag}", q.pc + [BATCH > 1, ld(kstar)], z3.BoolVal(False), fn=fq, meta={"replay": rp}))
+    run.add(static(f"{fq}/modifies", ex.writes <= {"Rule.activation_degree", "Rule.triggered", "Aggregated.terms"}, f"heap fields written: {sorted(ex.writes)}", fn=fq))
+
+
 def build(run):
     run.assume("A-REAL", "A-NP", "A-PY", "A-MSG", "A-LOG", "A-LISTVAL", "A-ACTVAL", "A-WF")
     try:
@@ -379,6 +594,12 @@ def build(run):
     except Unsupported as ex_:
         run.add(undecided("activation.Proportional.activate/subset", f"outside the verified subset: {ex_}", fn="activation.Proportional.activate",
                           meta={"replay": {"module": W_N, "func": "replay_activation", "kwargs": {"method": "Proportional"}, "vars": {}}}))
+    for cls_ in ("Highest", "Lowest"):
+        try:
+            verify_heap_method(run, cls_)
+        except Unsupported as ex_:
+            run.add(undecided(f"activation.{cls_}.activate/subset", f"outside the verified subset: {ex_}", fn=f"activation.{cls_}.activate",
+                              meta={"replay": {"module": W_N, "func": "replay_activation", "kwargs": {"method": cls_}, "vars": {}}}))
     # bounded stand-ins (level B, never counted as proved): Highest / Lowest / Proportional are not yet under a loop contract
     # (heapq and the two-loop normalisation); all seven methods are cross-checked against the definition on random rule blocks
     budget = 400 if run.tier == "quick" else 6000
